@@ -20,6 +20,7 @@ ALPHABET = [
     ("nothing", "nothing", (), {}),
     ("fail_value", "fail", ("value",), {}),
     ("fail_key", "fail", (), {"kind": "key"}),
+    ("fail_pyro_timeout", "fail", ("pyro-timeout",), {}),
     ("unexposed", "unexposed", (), {}),
     ("private", "_private", (), {}),
     ("missing", "no_such_method", (1,), {}),
@@ -71,7 +72,8 @@ def run_config(unit):
                 try:
                     seq_results.append(proxies["s"]._pyroInvoke(meth, args, kw))
                 except errors.CommunicationError as x:
-                    V("sequential-call-communication-error|%s" % type(x).__name__, "%r" % x, seq)
+                    if not (name == "fail_pyro_timeout" and isinstance(x, errors.TimeoutError) and x.args == ("nested call timed out",)):
+                        V("sequential-call-communication-error|%s" % type(x).__name__, "%r" % x, seq)
                     seq_exc = x
                     break
                 except Exception as x:
@@ -101,7 +103,7 @@ def run_config(unit):
                 one_ret = ob(oneway=True)
             except Exception as x:
                 one_exc = x
-            st.points += 3 * len(seq) + 3
+            st.points += 3 * len(seq) + 5
             # ---- compare
             # the statement allows the failure to surface "when the batch is submitted"; earlier results cannot be delivered then
             if not submitted and bat_exc is not None and seq_exc is not None:
@@ -127,6 +129,19 @@ def run_config(unit):
             for oid in ("s", "b", "o"):
                 if any(e[0] in ("unexposed", "_private") for e in objs[oid].log):
                     V("unexposed-member-executed|%s" % oid, "log %r" % objs[oid].log, seq)
+            # ---- the batch objects are reusable: a later batch on the same BatchProxy holds only its own calls
+            for which, bp, oid, accepted in (("batch", b, "b", submitted), ("oneway-batch", ob, "o", one_exc is None)):
+                if not accepted:
+                    continue      # a batch refused on submission keeps its calls (resubmitting it is the caller's business)
+                before = len(objs[oid].log)
+                try:
+                    bp.nothing()
+                    again = list(bp())
+                    if len(again) != 1 or len(objs[oid].log) != before + 1:
+                        V("reused-%s-replays-earlier-calls" % which, "second batch on the same BatchProxy returned %s and ran %r" % (show(again), objs[oid].log[before:]), seq)
+                except Exception as x:
+                    V("reused-%s-fails|%s" % (which, type(x).__name__), "%r" % x, seq)
+                del objs[oid].log[before:]
             key = "len=%d,fail=%s" % (len(seq), type(seq_exc).__name__ if seq_exc else "-")
             st.outcomes[key] = st.outcomes.get(key, 0) + 1
             st.states.add((objs["s"].total, tuple(objs["s"].items), len(objs["s"].log)))
